@@ -715,3 +715,68 @@ SCENARIOS.append(Scenario("C09.rules.SqueezeReshape", s_squeeze_reshape,
                           [("onnxscript/rewriter/rules/common/_basic_rules.py", "SqueezeReshape.check"), ("onnxscript/rewriter/rules/common/_basic_rules.py", "SqueezeReshape.rewrite"),
                            ("onnxscript/rewriter/_ir_utils.py", "has_rank")],
                           kind="bounded", bound="rank of x <= 3 or unknown; extents unbounded", trusted=TRUST))
+
+
+def s_expand_identity_anyrank(ctx):
+    """ExpandIdentity for inputs of ANY rank and constant targets of ANY length: Expand(x, target) -> Identity(x) only if the target has
+    the rank of x and every target entry equals the run-time extent of x there (then broadcast(x.shape, target) = x.shape); never on a
+    target that is an overridable initializer."""
+    import onnx_ir as ir
+    from onnxscript.rewriter.rules.common import _basic_rules
+    from contracts.symshape import SymShape
+    from pyvc.values import SSeq
+    I = Interp(ctx)
+    I.quant_skolem = True
+    W = World(I)
+    X = SymShape(I, "x")
+    i0 = ctx.int("i0")
+    ctx.assume(i0 >= 0)
+    ctx.witness["i0"] = i0
+    tr = ctx.int("target_length")
+    ctx.assume(tr >= 0)
+    T = z3.Function("target_entry", z3.IntSort(), z3.IntSort())
+    x = W.value("x", dims=None, rt=None, dtype=ir.DataType.FLOAT)
+    x.fields["shape"] = X.obj
+    overridable = ctx.choose(2, "the target initializer is also a graph input") == 1
+
+    class Arr:
+        def tolist(self_):
+            return SSeq(tr, lambda i: SInt(T(z3.simplify(i))), name="target")
+    Arr.tolist._pyvc_native = True
+    t = SObj(ir.Tensor, "target_tensor")
+
+    def numpy_():
+        raise AssertionError
+    I.models[numpy_] = lambda interp: Arr()
+    t.fields.update(numpy=numpy_, dtype=ir.DataType.INT64)
+    s = W.value("shape", dims=None, rt=None, dtype=ir.DataType.INT64, const=t, initializer=True, graph_input=overridable)
+    rule = SObj(_basic_rules.ExpandIdentity, "rule")
+    try:
+        fired = I.truth(I.call(I.getattr(rule, "check"), [None, x, s]))
+    except PyRaise:
+        ctx.check("C04.rules.ExpandIdentity.any_rank.check_never_raises", False, CL04)
+        return
+    if not fired:
+        ctx.cover("ExpandIdentity.any_rank.check_failed")
+        return
+    ctx.cover("ExpandIdentity.any_rank.fired")
+    ctx.check("C05.rules.ExpandIdentity.any_rank.does_not_fire_on_an_overridable_initializer", not overridable,
+              "C05: 'same outputs for all inputs' / C04: 'initializers that are also graph inputs ... are never folded into constants'")
+    if overridable:
+        return
+    I.instantiate_forall(i0)
+    p = X.rank - 1 - i0
+    X.facts(p)
+    CLX = CL09 + " (every rank)"
+    ctx.check("C09.rules.ExpandIdentity.any_rank.fires_only_if_the_target_has_the_rank_of_the_input", tr == X.rank, CLX)
+    # entry by entry: target == extent of x, so broadcast(x_i, t_i) = x_i and the broadcast is valid
+    ctx.check("C09.rules.ExpandIdentity.any_rank.fires_only_if_every_target_entry_is_the_runtime_extent_for_every_binding",
+              z3.Implies(i0 < X.rank, T(i0) == X.rt(p)), CLX)
+    ctx.check("C05.rules.ExpandIdentity.any_rank.same_output_shape_for_every_binding", z3.And(tr == X.rank, z3.Implies(i0 < X.rank, T(i0) == X.rt(p))),
+              "C05: 'the rewritten model yields the same outputs as before for all inputs (same element type, same shape, equal values)'")
+
+
+SCENARIOS.append(Scenario("C09.rules.ExpandIdentity[any rank]", s_expand_identity_anyrank,
+                          [("onnxscript/rewriter/rules/common/_basic_rules.py", "ExpandIdentity.check"), ("onnxscript/rewriter/rules/common/_basic_rules.py", "ExpandIdentity.rewrite")],
+                          trusted=TRUST + ["ONNX Expand: output shape = broadcast(input shape, target)"],
+                          assumptions=["`dims != tuple(target)` over symbolic-length sequences is used at one arbitrary (Skolem) position"]))
